@@ -681,7 +681,7 @@ func (c check) Run(w *harness.W, b harness.Batch) {
 		}
 	case "quiet-shutdown":
 		for i := 0; i < s.N; i++ {
-			if i%6 == 3 {
+			if i%6 == 3 && i < 120 { // each takes seconds (the leak oracle's patience): at most 20 per batch
 				if !runCloseThenStopReading(w, gen.New(r.Int63())) {
 					break
 				}
